@@ -1148,6 +1148,28 @@ fn implement_reprc_struct(
     }
 }
 
+/// True if the in-memory discriminant of every variant equals the variant's position
+/// (which is what the serialized format and the schema use to identify a variant).
+fn discriminants_match_positions(enum1: &syn::DataEnum) -> bool {
+    let mut next: Option<u64> = Some(0);
+    for (variant_index, variant) in enum1.variants.iter().enumerate() {
+        if let Some((_, discriminant)) = &variant.discriminant {
+            next = match discriminant {
+                syn::Expr::Lit(syn::ExprLit {
+                    lit: syn::Lit::Int(value),
+                    ..
+                }) => value.base10_parse::<u64>().ok(),
+                _ => None, // not a plain non-negative literal: unknown
+            };
+        }
+        if next != Some(variant_index as u64) {
+            return false;
+        }
+        next = next.map(|x| x + 1);
+    }
+    true
+}
+
 #[derive(Debug)]
 struct EnumSize {
     discriminant_size: u8,
@@ -1297,25 +1319,13 @@ fn derive_reprc_new(input: DeriveInput) -> TokenStream {
 
             // The serialized format numbers variants by their position. The memory image can
             // only be identical if every in-memory discriminant equals that position.
-            for (variant_index, variant) in enum1.variants.iter().enumerate() {
-                if let Some((_, discriminant)) = &variant.discriminant {
-                    let same_as_index = match discriminant {
-                        syn::Expr::Lit(syn::ExprLit {
-                            lit: syn::Lit::Int(value),
-                            ..
-                        }) => value.base10_parse::<u64>().ok() == Some(variant_index as u64),
-                        _ => false,
-                    };
-                    if !same_as_index {
-                        if opt_in_fast {
-                            abort!(
-                                discriminant.span(),
-                                "The #[savefile_require_fast] attribute cannot be used for enums with explicit discriminants that differ from the variant index"
-                            );
-                        }
-                        return implement_reprc_hardcoded_false(name.clone(), &input);
-                    }
+            if !discriminants_match_positions(enum1) {
+                if opt_in_fast {
+                    abort_call_site!(
+                        "The #[savefile_require_fast] attribute cannot be used for enums with explicit discriminants that differ from the variant index"
+                    );
                 }
+                return implement_reprc_hardcoded_false(name.clone(), &input);
             }
 
             let mut conditions = vec![];
@@ -2063,7 +2073,11 @@ fn savefile_derive_crate_withschema(input: DeriveInput) -> TokenStream {
             let max_variant_fields = enum1.variants.iter().map(|x| x.fields.len()).max().unwrap_or(0);
 
             let enum_size = get_enum_size(&input.attrs, enum1.variants.len());
-            let need_determine_offsets = enum_size.explicit_size;
+            // The schema identifies variants by position. If the in-memory discriminants differ
+            // from the positions, the schema cannot describe the memory layout: claim nothing
+            // (no field offsets, no explicit repr), so that values are always serialized.
+            let memory_layout_describable = discriminants_match_positions(enum1);
+            let need_determine_offsets = enum_size.explicit_size && memory_layout_describable;
 
             let mut variants = Vec::new();
             let mut variant_field_offset_extractors = vec![];
@@ -2241,7 +2255,7 @@ fn savefile_derive_crate_withschema(input: DeriveInput) -> TokenStream {
             }
 
             let discriminant_size = enum_size.discriminant_size;
-            let has_explicit_repr = enum_size.repr_c;
+            let has_explicit_repr = enum_size.repr_c && memory_layout_describable;
 
             quote! {
                 #field_offset_impl
